@@ -13,7 +13,7 @@ func init() {
 		ID: "C20",
 		Explanation: "Immutability after construction, decided by effect summaries over the call graph: for X25519Recipient/Identity, ScryptRecipient/Identity, RSARecipient/Identity, Ed25519Recipient/Identity, (R20.1) no function reachable from their Wrap/WrapWithLabels/Unwrap/unwrap/Recipient/String methods writes a field of these types, or memory reachable from the receiver (store, copy, append, writing callee), unless the memory was allocated in that invocation; (R20.2) none writes a package variable; " +
 			"(R20.3) module-wide, fields of these types are written on non-fresh values only by the two documented Set*WorkFactor configuration methods; (R20.4) receiver-derived memory is handed to external code only through callees whose contract says they do not write it; (R20.5) the label slices Encrypt sorts in place are freshly allocated by the in-module RecipientWithLabels implementations; " +
-			"(R20.6) Encrypt and Decrypt write no shared memory other than dst/src and those labels; (R20.7) the functions behind Encrypt, Decrypt and the STREAM constructors and methods use no package-level state: a package variable they mention is an initialise-once table, sentinel or pattern, never written, or a test hook, and is not a mutable object (buffered reader, buffer, hash, pool, updated map). Immutable shared values imply absence of data races on them and independence of results.",
+			"(R20.6) Encrypt and Decrypt write no shared memory other than dst/src and those labels; (R20.7) the functions behind Encrypt, Decrypt and the STREAM constructors and methods use no package-level state: a package variable they mention is an initialise-once table, sentinel or pattern, never written, or a test hook, and is not a mutable object (buffered reader, buffer, hash, pool, updated map). Immutable shared values imply absence of data races on them and independence of results. (R20.8 = R01.16) Unwrap/Wrap write nothing reachable from their arguments.",
 		NotDecided:  "races inside external libraries; third-party Recipient/Identity implementations; real interleavings (this is a sufficient static argument for the in-module part, not an exploration of schedules).",
 		Assumptions: []string{"the external callees listed as non-writing in the checker's contract table do not write through their arguments", "CHA call graph over-approximates dynamic dispatch inside the module"},
 		Technique:   "static analysis: effect summaries (stored fields, written parameters, globals) with freshness classification, fix-point over a CHA call graph",
